@@ -20,6 +20,7 @@ type dataConn struct {
 	Sent    []byte // bytes written after the ConnectionBind success
 	Closed  bool
 	FinAt   int64 // the plan closed this end gracefully at that instant, while it was open
+	PlanEnd int64 // the plan closed or reset this end at that instant (0: it never did)
 	pending []byte
 }
 
@@ -98,6 +99,7 @@ func (c *RawClient) doTCPOp(op *Op) bool {
 			dc := c.Data[op.A.N]
 			if dc.Up && !dc.Closed {
 				dc.Closed = true
+				dc.PlanEnd = c.W.K.Now()
 				if hasFlag(op, "rst") {
 					dc.Conn.reset()
 				} else {
@@ -145,6 +147,7 @@ type peerConn struct {
 	Sent   []byte
 	Closed bool
 	FinAt  int64 // the plan closed this end gracefully at that instant, while it was open
+	PlanEnd int64 // the plan closed or reset this end at that instant (0: it never did)
 	In     bool // accepted at the peer's listener (the relay dialled out)
 }
 
@@ -207,6 +210,7 @@ func (p *PeerActor) doTCPOp(op *Op) bool {
 			pc := p.Conns[op.A.N]
 			if !pc.Closed {
 				pc.Closed = true
+				pc.PlanEnd = w.K.Now()
 				if hasFlag(op, "rst") {
 					pc.Conn.reset()
 				} else {
@@ -265,14 +269,18 @@ func (w *SrvWorld) checkStreams() {
 				w.cmpStream(cid, "c2p", dc.Sent, pc.Recv, dc.Closed || pc.Closed)
 				w.cmpStream(cid, "p2c", pc.Sent, dc.Recv, dc.Closed || pc.Closed)
 				// what an end wrote before it closed (FIN, not reset) comes before its close: it
-				// all arrives, unless the other end closed first or the allocation went meanwhile
+				// all arrives, unless the other end was closed by the plan too, or the allocation went meanwhile
 				alive := func(t int64) bool {
 					return (a.End == nil || a.End.Lo > t+5*sec) && a.Deadline.Lo > t+5*sec && (m.serverClosedAt == 0 || m.serverClosedAt > t+5*sec)
 				}
-				if dc.FinAt > 0 && (pc.FinAt == 0 || pc.FinAt > dc.FinAt) && alive(dc.FinAt) {
+				// (the other end: never closed by the plan at all - what was written before a bind
+				// is piped only after it, so "closed later than the writer" is not late enough)
+				// (and the allocation outlives both the close and the bind: bytes written before the
+				// bind travel after it)
+				if dc.FinAt > 0 && pc.PlanEnd == 0 && alive(maxI(dc.FinAt, t.BoundAt.Hi)) {
 					w.cmpStreamEnd(cid, "c2p", dc.Sent, pc.Recv)
 				}
-				if pc.FinAt > 0 && (dc.FinAt == 0 || dc.FinAt > pc.FinAt) && alive(pc.FinAt) {
+				if pc.FinAt > 0 && dc.PlanEnd == 0 && alive(maxI(pc.FinAt, t.BoundAt.Hi)) {
 					w.cmpStreamEnd(cid, "p2c", pc.Sent, dc.Recv)
 				}
 			}
